@@ -2,7 +2,8 @@
 (***************************************************************************)
 (* Recorded QAP executions (C09).  Case kinds:                             *)
 (*  "eval" : [n, F, D, sF, sD, lb, ub, perms: <<[p, val]>>]  BigNat entries; *)
-(*           sF/sD are the matrices as stored by the instance              *)
+(*           sF/sD are the matrices as stored by the instance; optional     *)
+(*           ulb/uub are bounds the caller passed to the constructor        *)
 (*  "parse": [n, F, D, ok, ln, lF, lD]  a QAPLIB text for (n, F, D) in some *)
 (*           line wrapping was handed to the loader; ok = 1 if it loaded,   *)
 (*           and (ln, lF, lD) is what it loaded (native entries)            *)
@@ -16,6 +17,9 @@ EvalOne(c, e) ==
     (IF e.val # v THEN {"not-flow-distance-sum"} ELSE {})
     \cup (IF ~BLe(c.lb, v) THEN {"true-value-below-declared-lower-bound"} ELSE {})
     \cup (IF ~BLe(v, c.ub) THEN {"true-value-above-declared-upper-bound"} ELSE {})
+    \* bounds the driver handed to the constructor must themselves be valid, or the case proves nothing
+    \cup (IF "ulb" \in DOMAIN c /\ ~BLe(c.ulb, v) THEN {"driver-bad-user-bound"} ELSE {})
+    \cup (IF "uub" \in DOMAIN c /\ ~BLe(v, c.uub) THEN {"driver-bad-user-bound"} ELSE {})
 Eval(c) == (IF c.sF # c.F THEN {"stored-flows-differ"} ELSE {})
            \cup (IF c.sD # c.D THEN {"stored-distances-differ"} ELSE {})
            \cup UNION {EvalOne(c, c.perms[k]) : k \in 1..Len(c.perms)}
